@@ -628,6 +628,14 @@ func (m *Machine) callValue(caller *frame, fn value, args []value, site ssa.Call
 		}
 		return m.callSSA(caller, f.fn, args, f.env)
 	case *Builtin:
+		if f.name == "gosx:swap" {
+			sl := f.data.(Slice)
+			i, j := m.concLen(args[0].(Scalar), "swap i"), m.concLen(args[1].(Scalar), "swap j")
+			x, y := copyVal(m.sliceElem(sl, i)), copyVal(m.sliceElem(sl, j))
+			m.setSliceElem(sl, i, y)
+			m.setSliceElem(sl, j, x)
+			return nil
+		}
 		return m.callBuiltin(caller, f.name, args, site)
 	case *BoundMethod:
 		return m.invoke(caller, f.recv, f.name, f.pkg, args)
